@@ -7,9 +7,9 @@
 (* forms, and the integral scale can be prescribed instead of the length   *)
 (* scale.                                                                  *)
 (*                                                                         *)
-(* Seven independent parts share this module; a configuration selects one  *)
+(* Eight independent parts share this module; a configuration selects one  *)
 (* through INIT/NEXT (InitGraph/NextGraph, InitVariant, InitPoly, InitInt, *)
-(* InitHist/NextHist, InitTpl, InitHalf).  Other parts' variables: None.   *)
+(* InitHist/NextHist, InitTpl, InitHalf, InitCtor).  Others' vars: None.   *)
 (*                                                                         *)
 (*  A  derivation graph: which function a class gets for each of the four  *)
 (*     names given the subset D it defines itself; evaluation must         *)
@@ -24,6 +24,9 @@
 (*  F  the truncated-power-law superposition (lower truncation, rescale):  *)
 (*     exact weights of the documented two-mode closed form, mode bounds.  *)
 (*  G  Matern with half-integer shape: exp(-z) times an exact polynomial.  *)
+(*  H  the spellings of a construction (var | var_raw) x (len_scale |      *)
+(*     integral_scale scalar | list) x rescale given / omitted, for models *)
+(*     with var_factor = 1 and with a len_scale dependent var_factor.      *)
 (*                                                                         *)
 (* Lengths in part B are integers in units of len_scale/16 ("u"); the grid *)
 (* lag k/8 * len_scale is u = 2k.  Anisotropy ratios are powers of two     *)
@@ -611,4 +614,63 @@ HalfSound ==
   /\ (vc.p >= 2 => vc.poly = Add(MaternPoly(vc.p - 1, vc.z),
                                  Mul(Div(Mul(vc.z, vc.z), QI((2 * vc.p - 1) * (2 * vc.p - 3))),
                                      MaternPoly(vc.p - 2, vc.z))))
+
+-----------------------------------------------------------------------------
+(*      H.  the spellings of a construction                                *)
+-----------------------------------------------------------------------------
+(* A model can be constructed by giving the variance as  var  or  var_raw,
+   the scale as  len_scale, a scalar  integral_scale  or a list of integral
+   scales, with the rescale factor given or omitted.  Whatever the spelling,
+       var = var_raw * var_factor(final parameters),
+   a variance given as  var  IS the variance (covariance(0) = var, sill and
+   the far tail of the variogram = var + nugget), and a prescribed integral
+   scale is the reported one.  Families:
+     "unit"  var_factor = 1                               (the standard models)
+     "tpl"   var_factor = len_scale / rescale             (TPL models, H = 1/2, len_low = 0)
+     "user"  var_factor = 2 * len_scale / rescale         (a user model overriding var_factor)
+   A quantity that depends on a prescribed integral scale involves
+   kappa = integral scale of the model with len_scale = 1 and the same
+   rescale spelling (transcendental): it is kept as  q * kappa^k.
+   For the var_factor families an omitted rescale is 1 (their default).     *)
+CONSTANTS CFams, CVars, CNugs, CLens, CInts, CRes, CDims    \* CRes: rationals, <<0,1>> = rescale omitted
+
+SymQ(q, k) == [q |-> q, k |-> k]
+SymMul(a, b) == SymQ(Mul(a.q, b.q), a.k + b.k)
+SymInv(a) == SymQ(Inv(a.q), -a.k)
+
+CtorCase(fam, vs, v, n, ls, L, I, r, d) ==
+  LET res == IF r = Zero THEN One ELSE r
+      an0 == InitAnis(d)
+      eff == IF ls = "len" THEN [int |-> Zero, anis |-> an0, vec |-> <<>>] ELSE IntEffectQ(d, an0, I)
+      len == IF ls = "len" THEN SymQ(L, 0) ELSE SymQ(eff.int, -1)      \* int = kappa * len
+      vf  == CASE fam = "unit" -> SymQ(One, 0)
+               [] fam = "tpl"  -> SymQ(Div(len.q, res), len.k)
+               [] fam = "user" -> SymQ(Mul(QI(2), Div(len.q, res)), len.k)
+      var == IF vs = "var" THEN SymQ(v, 0) ELSE SymMul(SymQ(v, 0), vf)
+      raw == IF vs = "var_raw" THEN SymQ(v, 0) ELSE SymMul(SymQ(v, 0), SymInv(vf))
+  IN [kind |-> "ctor", fam |-> fam, vs |-> vs, v |-> v, nug |-> n, ls |-> ls, L |-> L, I |-> I, r |-> r,
+      dim |-> d, an0 |-> an0, len |-> len, vf |-> vf, var |-> var, raw |-> raw,
+      anis |-> eff.anis, int |-> eff.int, vec |-> eff.vec]
+
+InitCtor ==
+  /\ part = "ctor"
+  /\ \E fam \in CFams, vs \in {"var", "var_raw"}, v \in CVars, n \in CNugs, r \in CRes, d \in CDims :
+       \/ \E L \in CLens : vc = CtorCase(fam, vs, v, n, "len", L, <<>>, r, d)
+       \/ \E L \in CLens, I \in CInts :
+            vc = CtorCase(fam, vs, v, n, IF Len(I) = 1 THEN "int" ELSE "intlist", L, I, r, d)
+  /\ D = None /\ inst = None /\ pc = None /\ abstract = None /\ ev = None
+  /\ pm = None /\ tab = None /\ isc = None
+
+CtorSound ==
+  /\ vc.var = SymMul(vc.raw, vc.vf)                            \* var = var_raw * var_factor
+  /\ (vc.vs = "var" => vc.var = SymQ(vc.v, 0))                 \* the prescribed variance is the variance,
+  /\ (vc.vs = "var_raw" => vc.raw = SymQ(vc.v, 0))             \*   however the scale was spelled
+  /\ (vc.fam = "unit" => vc.var = SymQ(vc.v, 0) /\ vc.raw = SymQ(vc.v, 0))
+  /\ Less(Zero, vc.var.q) /\ Less(Zero, vc.raw.q) /\ Less(Zero, vc.len.q)
+  /\ (vc.ls = "len" => vc.len = SymQ(vc.L, 0) /\ vc.anis = vc.an0)
+  /\ (vc.ls # "len" => vc.int = vc.I[1] /\ vc.len = SymQ(vc.I[1], -1) /\ vc.vec[1] = vc.I[1])   \* L is ignored
+  /\ (vc.ls = "int" => vc.anis = vc.an0)
+  /\ (vc.ls = "intlist" /\ vc.dim >= 2 =>
+        \A i \in 1..vc.dim : vc.vec[i] = (IF i <= Len(vc.I) THEN vc.I[i] ELSE vc.I[Len(vc.I)]))
+  /\ Len(vc.anis) = vc.dim - 1
 =============================================================================
